@@ -65,7 +65,11 @@ local_epoch = z3.Function("local_epoch", IntS, IntS)  # calendar.timegm(time.loc
 av_valid = z3.Function("av_valid", StrS, BoolS)  # AwesomeVersion(s).valid
 av_section = z3.Function("av_section", StrS, IntS, IntS)  # AwesomeVersion(s).section(i)
 av_nsec = z3.Function("av_sections", StrS, IntS)  # AwesomeVersion(s).sections
+utf8 = z3.Function("utf8", StrS, BytesS)  # str.encode()
+utf8_ok = z3.Function("utf8_ok", BytesS, BoolS)  # bytes.decode() succeeds
+utf8_dec = z3.Function("utf8_dec", BytesS, StrS)  # its result
 rstrip_f = z3.Function("rstrip", StrS, StrS)
+sepfree = z3.Function("sepfree", StrS, StrS, BoolS)  # s contains no occurrence of the (1-char) separator
 ends_ws = z3.Function("ends_ws", StrS, BoolS)
 
 
@@ -170,7 +174,10 @@ class Lib:
         if z3.is_int_value(term):
             return z3.StringVal(str(term.as_long()))
         s = dec(term)
-        I.c.assume(z3.And(intlit(s), intval(s) == term, z3.Length(s) >= 1))
+        I.c.assume(z3.And(intlit(s), intval(s) == term, s != z3.StringVal("")))
+        # A-STR: a canonical decimal has no separator, no whitespace, no line terminator
+        I.c.assume(z3.And(sepfree(s, z3.StringVal(";")), sepfree(s, z3.StringVal("/")),
+                          sepfree(s, z3.StringVal("\n")), rstrip_f(s) == s))
         for hook in getattr(I, "dec_hooks", ()):  # property-specific lemma schemas (C01, C18)
             hook(I, term, s)
         return s
@@ -383,7 +390,7 @@ class Lib:
         raise Unsupported(f"dict.{name}")
 
     def str_method(self, I, s, name, a, k, node):
-        if isinstance(s, str) and all(isinstance(x, (str, int)) for x in a):
+        if isinstance(s, str) and all(isinstance(x, (str, int)) for x in a) and not k:
             if name in ("lower", "upper", "rstrip", "strip", "split", "rpartition", "replace", "startswith", "endswith", "join"):
                 return getattr(s, name)(*a)
             if name == "encode":
@@ -394,7 +401,8 @@ class Lib:
         return r
 
     def model_str_method(self, I, s, name, a, k, node):
-        return MISSING
+        from . import strings
+        return strings.str_method(self, I, s, name, a, k, node)
 
     def obj_attr(self, I, o, name, fr, node):
         if o.typ.kind == "dict":
@@ -500,6 +508,8 @@ class Lib:
 
     def b_len(self, I, a, k):
         v = a[0]
+        if isinstance(v, LibObj) and hasattr(v, "length"):
+            return v.length(I)
         if isinstance(v, (str, list, tuple, dict, set)):
             return len(v)
         if is_sym(v, "str"):
